@@ -10,6 +10,10 @@ import traceback
 from . import common
 
 
+# statement files shared by several properties (generated-code bridges used by all of them)
+SHARED_PROPS = {p: ['Stages'] for p in ('C01', 'C02', 'C03', 'C04', 'C16')}
+
+
 def proof_step(res, pid, allow_axioms=()):
     """Build the Coq development (full .vo build), audit it, and collect the
     Print Assumptions output under every theorem of Props/<pid>.v.
@@ -17,10 +21,14 @@ def proof_step(res, pid, allow_axioms=()):
     cov = res.coverage
     cov['checker_cmd'] = ('coq_makefile -f _CoqProject -o Makefile && make  (coqc 8.16.1, full .vo build) '
                           f'; coqc Props/{pid}.v re-run for Print Assumptions')
+    import glob
+    rel = [f'Props/{pid}.v'] + sorted('Props/' + os.path.basename(x) for x in glob.glob(os.path.join(common.VERIF, 'coq', 'Props', f'{pid}_*.v'))) \
+        + [f'Props/{x}.v' for x in SHARED_PROPS.get(pid, [])]
     ok, log = common.coq_build()
     if not ok:
-        # is THIS property's file affected?
-        ok2, log2 = common.coq_build([f'Props/{pid}.vo'])
+        # is THIS property's development affected?  (a translator that stopped, or a bridge that no longer
+        # compiles, breaks exactly the files that depend on it)
+        ok2, log2 = common.coq_build([r + 'o' for r in rel])
         if not ok2:
             cov['obligations'] = cov.get('obligations', 0) or 1
             cov['discharged'] = 0
@@ -33,8 +41,7 @@ def proof_step(res, pid, allow_axioms=()):
         cov['obligations'] = 1
         cov['discharged'] = 0
         return False
-    import glob
-    paths = [os.path.join(common.COQ, 'Props', f'{pid}.v')] + sorted(glob.glob(os.path.join(common.COQ, 'Props', f'{pid}_*.v')))
+    paths = [os.path.join(common.COQ, r) for r in rel]
     thms, examples, out = [], [], ''
     for path in paths:
         src = open(path).read()
